@@ -94,8 +94,11 @@ impl Out {
     /// An implementation-vs-oracle failure (a violation of the property by the code).
     pub fn fail(&mut self, class: &str, input: &str, detail: &str) {
         self.n_fail += 1;
-        *self.stats.entry(format!("oraclefail:{class}")).or_insert(0) += 1;
-        if self.n_fail <= 2000 {
+        let c = self.stats.entry(format!("oraclefail:{class}")).or_insert(0);
+        *c += 1;
+        // written out per class (not first come, first served): a flood of one class — e.g. a recorded
+        // known finding — must not keep another class out of the file the verdict is computed from
+        if *c <= 300 && self.n_fail <= 20000 {
             let j = serde_json::json!({"class": class, "input": input, "detail": detail});
             writeln!(self.oracle, "{j}").unwrap();
         }
